@@ -59,6 +59,10 @@ def workloads(thorough):
         # a slow and a fast run overlapping: the read loop must keep running for the slow one
         ("nostep_then_overlap", [R(1), R(2, beh="nostep"), dict(id="r3", beh="ok", sig=False, badsig=False, after="r4"), R(4)],
          dict(phases=[["r1", "r2"], ["r3", "r4"]], close="end")),
+        # no coupling between the step and the callers: with a caller held before it collects its stored result, the
+        # second caller of the same run ID must still be refused (or, if the first is completely done, run normally)
+        ("dup_nogate", [R(1), dict(id="r1d", **{"as": "r1"}, beh="ok", sig=False, badsig=False), R(2)],
+         dict(phases=[["r1", "r1d"], ["r2"]], close="end")),
         ("dup_plain", [R(1), dict(id="r1d", **{"as": "r1"}, dup=True, beh="ok", sig=False, badsig=False), R(2)],
          dict(phases=[["r1", "r1d"], ["r2"]], close="race")),
     ]
@@ -77,6 +81,18 @@ def cfg_key(runs):
     bad = tuple(sorted(set(rid(r) for r in runs if r.get("badsig"))))
     nostep = tuple(sorted(set(rid(r) for r in runs if r.get("beh") == "nostep")))
     return (sig, bad, nostep) if nostep else (sig, bad)
+
+
+def add_session(ctx, sessions, sc, out):
+    """queue a session for trace validation - unless a run ID was used twice one after the other (both callers ran to
+    a result): the model has one call per run ID, such sessions are judged by the real-code oracles only"""
+    for r in sc.get("runs", []):
+        if r.get("as") and not r.get("dup"):
+            a, b = out["results"].get(r["id"], {}), out["results"].get(r["as"], {})
+            if a.get("st") != "dup" and b.get("st") != "dup":
+                ctx.extra["run_id_reuse_sessions_not_trace_validated"] = ctx.extra.get("run_id_reuse_sessions_not_trace_validated", 0) + 1
+                return
+    sessions.setdefault(cfg_key(sc["runs"]), []).append((sc["id"], out["events"]))
 
 
 def judge_session(ctx, sc, rr, model_res=None, what="delay"):
@@ -100,6 +116,15 @@ def judge_session(ctx, sc, rr, model_res=None, what="delay"):
         if r.get("dup") and not res.get("stuck") and r["id"] in res["results"] and r["as"] in res["results"]:
             pair = sorted([res["results"][r["id"]]["st"], res["results"][r["as"]]["st"]])
             if pair.count("dup") != 1:
+                ctx.violation(dict(kind="duplicate_run_id", outcome="/".join(pair)), dict(scenario=sc, result=res["results"]))
+        elif r.get("as") and r.get("beh", "ok") == "ok" and not r.get("echo") and not res.get("stuck") \
+                and all(x.get("beh", "ok") == "ok" and not x.get("echo") for x in sc.get("runs", []) if x["id"] == r["as"]) \
+                and r["id"] in res["results"] and r["as"] in res["results"] \
+                and (sc.get("workload") or {}).get("close") != "race":
+            # a run ID used by two callers without coupling: one runs and the other is refused, or - if the first was
+            # completely done - both run; a successful step's result is never lost to its own caller
+            pair = sorted([res["results"][r["id"]]["st"], res["results"][r["as"]]["st"]])
+            if pair not in (["dup", "ok"], ["ok", "ok"]):
                 ctx.violation(dict(kind="duplicate_run_id", outcome="/".join(pair)), dict(scenario=sc, result=res["results"]))
     if res.get("server_stalled"):
         ctx.extra["server_stalled_sessions"] = ctx.extra.get("server_stalled_sessions", 0) + 1
@@ -217,7 +242,7 @@ def run(ctx):
             want = "ok" if ('%s |-> [x |-> "%s", st |-> "ok"]' % (rid, rid)) in mres.replace("\n", " ") else None
             if want == "ok" and not (e["st"] == "ok" and e["token_ok"]):
                 ctx.violation(dict(kind="wrong_result", model="ok", code=e["st"]), dict(scenario=sc, results=out["results"]))
-        sessions.setdefault(cfg_key(sc["runs"]), []).append((sc["id"], out["events"]))
+        add_session(ctx, sessions, sc, out)
     ctx.sample(dict(kind="replayed behaviour", schedule=schedule_sig(sims[0][0]["schedule"])[:25]))
     # ---------------------------------------------------------------- 3. code -> spec: delay exploration
     scen = []
@@ -231,15 +256,24 @@ def run(ctx):
         if out is None:
             continue
         ctx.count(sc["id"])
-        sessions.setdefault(cfg_key(sc["runs"]), []).append((sc["id"], out["events"]))
+        add_session(ctx, sessions, sc, out)
         seen = {}
         for key in out.get("gates", []):
             seen[key] = seen.get(key, 0) + 1
             delay.append(dict(id="delay/%s/%s#%d" % (sc["id"][5:], key, seen[key]), mode="delay", cap=0, runs=sc["runs"],
                               workload=sc["workload"], delay_key=key, delay_nth=seen[key]))
+    # chosen pairs of held gates (both tiers): a second caller of a run ID held before it registers while the first
+    # caller is held between its work-start and the collection of its result, i.e. the second registers when the
+    # first's result is stored but not yet collected
+    dn = next((sc for sc in scen if sc["id"] == "free/dup_nogate"), None)
+    if dn is not None:
+        for k1, n1, k2, n2 in (("c.wait.pre|r1", 1, "c.register.pre|r1", 2), ("c.wait.pre|r1", 1, "c.send.pre|ws|r1", 2),
+                               ("c.register.pre|r1", 2, "c.deliver.pre|r1", 1)):
+            delay.append(dict(id="delay/dup_nogate/%s#%d+%s#%d" % (k1, n1, k2, n2), mode="delay", cap=0, runs=dn["runs"],
+                              workload=dn["workload"], delay_key=k1, delay_nth=n1, delay2_key=k2, delay2_nth=n2))
     if not thorough:
         # quick tier: every gate occurrence of the first four workloads
-        delay = [d for d in delay if d["id"].split("/")[1] in ("serial3", "serial2sig", "serial2race", "parallel3", "nostep_par", "dup_sig", "nostep_then_overlap")]
+        delay = [d for d in delay if d["id"].split("/")[1] in ("serial3", "serial2sig", "serial2race", "parallel3", "nostep_par", "dup_sig", "nostep_then_overlap", "dup_nogate")]
     else:
         # thorough tier: additionally pairs of held gate occurrences (i, j > i) per workload, sampled by the seed
         import random
@@ -268,7 +302,7 @@ def run(ctx):
             ctx.count(sc["id"])
         else:
             ctx.evaluations += 1
-        sessions.setdefault(cfg_key(sc["runs"]), []).append((sc["id"], out["events"]))
+        add_session(ctx, sessions, sc, out)
     # ---------------------------------------------------------------- 3a. signals emitted BY the plugin
     # the SDK's own server never emits signals, so "signal traffic in both directions" is exercised against a
     # scripted, correctly behaving peer (mode "client" of the driver): emitted signals for runs with and without a
@@ -340,7 +374,7 @@ def run(ctx):
                 ctx.count(sc["id"])
             else:
                 ctx.evaluations += 1
-            sessions.setdefault(cfg_key(sc["runs"]), []).append((sc["id"], out["events"]))
+            add_session(ctx, sessions, sc, out)
         ctx.extra["yield_points"] = npoints
         ctx.extra["yield_delay_scenarios"] = len(ydelay)
         ctx.extra["yield_gate_held"] = yhit
